@@ -514,6 +514,8 @@ func init() {
 			// call may survive into a later one; also types that refer to themselves
 			reuse := core.Section{Name: "type-reuse-after-failure", N: n / 20,
 				Run: func(c *core.Ctx, i int) {
+					// (values are repaired in place between renders)
+					defer poolPause(c)()
 					type node struct {
 						Label string
 						Any   any
@@ -581,6 +583,8 @@ func init() {
 					}
 					// one map object rendered, changed by the caller, and rendered again through a loaded Template
 					if i == 0 {
+						resume := poolPause(c)
+						defer resume()
 						files := map[string]string{"page.tw": "{{ n }}|{{ user.name }}|{{ list[0] }}|{{ list.len() }}", "other.tw": "{{ n + 1 }}"}
 						if tpl, err := loadTree(c, "c12same", files, ".tw"); err == nil && tpl != nil {
 							u := &c12User{Name: "Ann"}
